@@ -20,7 +20,7 @@ NAMES = ['C1', 'C2', 'C3', 'O1', 'N1']
 def gen_case(rng):
     """residues with classes, atoms per residue, one restraint"""
     nres = rng.randint(0, 4)
-    classes = ['TOL', 'THF', 'ccf3']
+    classes = ['TOL', 'THF', 'ccf3', '3HB']
     residues = []
     atoms = {0: rng.sample(NAMES, rng.randint(2, 5))}
     for k in range(nres):
